@@ -176,7 +176,8 @@ RULE = ('integer-valued rasters up to 10x10 (every dtype Numba takes: float64/32
         'sqrt2, ..) so that targets sit just inside / outside the halo, max_distance >= the raster diagonal (single-chunk '
         'fallback) and inf; metrics EUCLIDEAN and MANHATTAN; 0 among target_values with coordinates at the origin; 12x16 rasters with 1-2 cell chunks '
         'and a 4-5 cell halo; two rasters of equal shape/chunking but different cell size computed together with dask.compute; '
-        'schedulers threads / synchronous; within the stated domain '
+        'a deterministic halo-edge family (cell sizes 0.2, 0.1, 0.01, 0.3, max_distance = k*cellsize for k in 1..7 as float product and '
+        'as decimal literal, one target and a probe exactly k cells apart across a chunk boundary); schedulers threads / synchronous; within the stated domain '
         '(halo in cells <= raster height/width). Dask and NumPy are both run (two of proximity/allocation/direction per case, '
         'rotating). A case is non-trivial when it has a target, a non-target cell and more than one block. In addition the '
         'extracted model alone is searched for a chunked != whole counter-example on random layouts/chunkings up to 8x8.')
@@ -585,6 +586,8 @@ def check_cases(ctx, cases, pool, use_model=True):
             if any(k.endswith('/mutated') for k in e):
                 ctx.violation('oracle', 'the %s call changed the caller\'s raster: %r' % (which, e), dict(case, backend=which))
         bad = False
+        if case.get('probe') and 'proximity' in gn:
+            check_probe(ctx, case, gn)
         for name in case['only']:
             if name not in gn:
                 ctx.violation('oracle', 'NumPy %s raised: %s' % (name, en.get(name)), dict(case, function=name))
@@ -828,6 +831,64 @@ def check_pairs(ctx, pairs, pool):
                 break
 
 
+HALO_SIZES = [0.2, 0.1, 0.01, 0.3]
+
+
+def halo_edge_case(cs, k, form, orient, b, other=None):
+    """one target and one probe cell exactly k cells apart along a row (orient 'row') or a column, cell size cs along that axis,
+    max_distance = k*cs (Python product, or the decimal literal), a chunk boundary after b cells between them, no other target:
+    the inclusive limit max_distance == distance needs a halo of exactly k cells"""
+    md = k * cs if form == 'prod' else round(k * cs, 10)
+    n = k + 3
+    if other is None:
+        other = next((c for c in HALO_SIZES[::-1] + [1.0] if int(md / c + 0.5) <= 3), 1.0)
+    along = [j * cs for j in range(n)]
+    across = [j * other for j in range(3)]
+    if orient == 'row':
+        data = [[0.0] * n for _ in range(3)]
+        data[1][1] = 7.0
+        xs, ys, chunks, probe, tgt = along, across, [[3], [b, n - b]], (1, 1 + k), (1, 1)
+    else:
+        data = [[0.0] * 3 for _ in range(n)]
+        data[1][1] = 7.0
+        xs, ys, chunks, probe, tgt = across, along, [[b, n - b], [3]], (1 + k, 1), (1, 1)
+    return dict(fn='dask', layout='halo-edge-%s' % orient, metric='EUCLIDEAN', data=data, dtype='float64', xs=xs, ys=ys,
+                cdtype='float64', ykind='frac', xkind='frac', tv=[], mode='default', max_distance=md, chunks=chunks,
+                scheduler='threads', only=['proximity'], no_model=True, probe=list(probe), probe_target=list(tgt),
+                halo_family=[cs, k, form, orient, b])
+
+
+def halo_edge_family(rng, per_config_k=None, all_boundaries=False):
+    """cell sizes 0.2, 0.1, 0.01, 0.3 x max_distance forms x k in 1..7 (all, or `per_config_k` drawn per configuration) x
+    orientation x chunk boundary at every position between target and probe (all, or one drawn)"""
+    out = []
+    for ci, cs in enumerate(HALO_SIZES):
+        for fi, form in enumerate(('prod', 'dec')):
+            ks = list(range(1, 8)) if per_config_k is None else sorted(rng.sample(range(1, 8), per_config_k))
+            for k in ks:
+                orients = ['row', 'col'] if per_config_k is None else [['row', 'col'][(ci + fi + k) % 2]]
+                for orient in orients:
+                    bs = list(range(2, k + 2)) if all_boundaries else [rng.randint(2, k + 1)]
+                    for b in bs:
+                        out.append(halo_edge_case(cs, k, form, orient, b))
+    return out
+
+
+def check_probe(ctx, case, gn):
+    """the exact answer at the probe cell of a halo-edge case, on the NumPy result (float32 rounding of the limit tolerated)"""
+    (r, c), (tr, tc) = case['probe'], case['probe_target']
+    xs, ys = case['xs'], case['ys']
+    d = c06.true_dist(case['metric'], float(xs[c]), float(ys[r]), float(xs[tc]), float(ys[tr]))
+    md = float(case['max_distance'])
+    v = gn['proximity'][r][c]
+    if c06.surely_within(d, md) and not c06.same(v, d):
+        ctx.violation('oracle', 'NumPy proximity at the probe cell (%d,%d) is %r, the single target is at distance %r <= '
+                      'max_distance %r' % (r, c, v, d, md), dict(case, cell=[r, c], numpy=v, expected=d))
+    elif d > md * (1 + 3e-7) and not math.isnan(v):
+        ctx.violation('oracle', 'NumPy proximity at the probe cell (%d,%d) is %r although the single target is at distance %r > '
+                      'max_distance %r' % (r, c, v, d, md), dict(case, cell=[r, c], numpy=v, expected=float('nan')))
+
+
 WINDOW_CASE = dict(fn='dask', layout='heuristic-window-dependence', metric='EUCLIDEAN',
                    data=[[1., 6., 0., -3., 2., 6.], [2., 0., 5., 0., 0., 0.], [7., 4., 0., 0., 0., 0.]], dtype='int8',
                    xs=[-4, -3, -2, -1, 0, 1], ys=[0, 2, 4], cdtype='float64', ykind='asc', xkind='asc', tv=[], mode='default',
@@ -935,7 +996,7 @@ def check_edges(ctx, cases, pool):
 
 
 def run(ctx):
-    n = 12 if ctx.quick() else 300
+    n = 9 if ctx.quick() else 300
     cases = gen_cases(ctx, n)
     suspects = model_search(ctx, 1500 if ctx.quick() else 30000)
     for s in suspects[:6]:
@@ -952,6 +1013,8 @@ def run(ctx):
         # appended last: earlier draws stay as they were
         tc = theme_cases(ctx)
         check_cases(ctx, tc + [dict(WINDOW_CASE)], pool)
+        fam = halo_edge_family(ctx.rng, per_config_k=3) if ctx.quick() else halo_edge_family(ctx.rng)
+        check_cases(ctx, fam, pool)
         check_pairs(ctx, [p + ('reverse',) for p in pair_cases(ctx)[:1]], pool)
     finally:
         pool.close()
@@ -968,6 +1031,7 @@ def search(ctx):
             check_cases(ctx, bigint_cases(ctx) + cases, pool, use_model=False)
             check_pairs(ctx, pair_cases(ctx), pool)
             check_derived(ctx, derived_cases(ctx) + derived_cases(ctx), pool)
+            check_cases(ctx, halo_edge_family(ctx.rng, all_boundaries=True), pool, use_model=False)
         finally:
             pool.close()
     finally:
